@@ -19,6 +19,9 @@ pub struct MapShape {
     pub ranges: bool,
     /// segments of a line listed out of column order in the serialised map
     pub unsorted: bool,
+    /// a repeated source may be spelled differently (`./src/a.js` next to `src/a.js`); only C10 sets it, so the
+    /// streams of the other engines do not depend on it
+    pub alt_spelling: bool,
 }
 
 pub fn gen_shape(rng: &mut Rng) -> MapShape {
@@ -41,6 +44,7 @@ pub fn gen_shape(rng: &mut Rng) -> MapShape {
         coverage: *rng.pick(&[0u8, 0, 0, 0, 0, 0, 0, 1, 1, 2]),
         ranges: rng.chance(1, 5),
         unsorted: rng.chance(1, 5),
+        alt_spelling: false,
     }
 }
 
@@ -58,7 +62,8 @@ pub fn gen_orig_map(rng: &mut Rng, program: &str, shape: &MapShape) -> Map {
         m.sources.push(match i {
             0 => if unicode { "orig/a\u{f1}adir.ts".to_string() } else { "orig/main.ts".to_string() },
             // real maps repeat entries (one bundle input listed twice)
-            1 => if dup { m.sources[0].clone() } else { "util.ts".to_string() },
+            // ... or the same path in another spelling
+            1 => if dup { if shape.alt_spelling && rng.chance(1, 2) { format!("./{}", m.sources[0]) } else { m.sources[0].clone() } } else { "util.ts".to_string() },
             2 => if unicode { "../\u{5171}\u{4eab}/lib.ts".to_string() } else { "../shared/lib.ts".to_string() },
             _ => format!("gen{}.ts", i),
         });
